@@ -334,7 +334,7 @@ func main() {
 		return
 	}
 	r := hx.NewRng(a.Seed)
-	nhist := 5
+	nhist := 4
 	if a.Thorough() {
 		nhist = 40
 	}
